@@ -5,10 +5,10 @@ import SpoxModel.Model.Memo
 namespace Generated.GraphSetters
 open Memo
 
-def setters : List Setter := [⟨"with_name", ["_name"]⟩, ⟨"with_doc", ["_doc_string"]⟩, ⟨"with_arguments", ["_arguments", "_build_result"]⟩, ⟨"with_opset", ["_extra_opset_req"]⟩, ⟨"_with_constructor", ["_constructor"]⟩, ⟨"_inject_build_result", ["_build_result"]⟩]
+def setters : List Setter := [⟨"with_name", ["_name"]⟩, ⟨"with_doc", ["_doc_string"]⟩, ⟨"with_arguments", ["_arguments", "_build_result"]⟩, ⟨"with_opset", ["_extra_opset_req", "_build_result"]⟩, ⟨"_with_constructor", ["_constructor"]⟩, ⟨"_inject_build_result", ["_build_result"]⟩]
 
 def memoGuarded : Bool := true
 
-def builderReads : List String := ["_get_build_result", "requested_arguments", "requested_results", "to_onnx", "with_name"]
+def builderReads : List String := ["_extra_opset_req", "_get_build_result", "requested_arguments", "requested_results", "to_onnx", "with_name"]
 
 end Generated.GraphSetters
